@@ -2006,7 +2006,7 @@ def isin_array(*,
             pass
 
     assume_unique = array_is_unique and other_is_unique
-    func = np.in1d if array.ndim == 1 else np.isin
+    func = np.isin # np.in1d (the same for 1D arrays) was removed in NumPy 2
 
     result = func(array, other, assume_unique=assume_unique) #type: ignore
     result.flags.writeable = False
